@@ -372,9 +372,12 @@ def validate_models(rep):
 def aslist(x): return x if isinstance(x, list) else [x]
 
 
-H_JSON = ('path_roundtrip_sqlite_1', 'path_roundtrip_sqlite_2', 'path_roundtrip_postgres', 'traverse', 'json_extract', 'json_contains',
-          'json_nonzero_length', 'json_unwrap', 'json_truthiness_sqlite', 'json_truthiness_postgres',
-          'array_index', 'array_contains_subset', 'array_slice_length', 'array_wrapped')
+H_JSON = ('path_roundtrip_sqlite_1', 'path_roundtrip_sqlite_quote', 'path_roundtrip_sqlite_2', 'path_roundtrip_postgres',
+          'path_roundtrip_postgres_2', 'path_roundtrip_postgres_backslash', 'path_postgres_null_word',
+          'traverse_1', 'traverse_2_list', 'traverse_2_dict', 'traverse_str_key_on_list', 'traverse_no_keys',
+          'json_extract', 'json_query_top_level_array', 'json_contains_nonzero_length', 'json_length_non_array', 'json_unwrap',
+          'json_truthiness_sqlite', 'json_truthiness_sqlite_float', 'json_truthiness_postgres',
+          'array_index', 'array_contains', 'array_contains_str', 'array_subset', 'array_slice')
 
 
 def classify(spec, cex):
@@ -429,6 +432,22 @@ def run(tier, seed, only=None):
             n_prog += 1
             for ob in aslist(one(db, pname, dialect, 'index', sk, None)): rep.add(ob)
     rep.programs = n_prog
+    T = 150 if tier == 'quick' else 900
+    specs = [dict(module='checks.h_c29', fn=f, cond_timeout=T, path_timeout=T / 2) for f in H_JSON]
+    if only: specs = [s for s in specs if only in s['fn']]
+    rep.bounds.update({
+        'path keys': 'one string key len <= %d over {a . [ \\ blank 0} (SQLite) / {a " , { blank 0} (PostgreSQL); quote / backslash keys len <= 2; '
+                     '2-3 element paths from a pool of 16 keys (strings needing quotes, looking like path syntax, non-ASCII; indexes 0, 1, -1, 10, -12)' % (4 if tier == 'thorough' else 3),
+        'documents (traverse)': 'top scalar / list / dict of 0-2 entries, entry 0 leaf / list / dict of 0-2 leaves; leaves symbolic int, str len <= 1, bool, null; '
+                                'keys: unbounded symbolic int, symbolic str len <= 1 over {a, b}',
+        'documents (through JSON text)': '18 entry values (10 scalars incl. float, 8 nested containers) x 3-5 top shapes x paths of 0-2 keys from 4-6 pooled keys',
+        'truthiness': '21 scalar/container candidates + 6 floats + missing path', 'arrays': 'symbolic List[int] len <= 3 with unbounded index/item; '
+                      'List[str]; through JSON text: 8 arrays x 10 item lists, slices of n <= 4 with bounds in [-5, 5] or None'})
+    rep.assumptions += ['functions that serialise (json.dumps/loads, %d formatting, regex) are run on solver-chosen pool members (concrete per path), the others on symbolic values',
+                        'path_cache is cleared at the start of every path',
+                        'PostgreSQL path literal: read by the reference reader of the array-literal syntax in checks/h_c29.py (model-only); jsonb equality model in json_truthiness_postgres',
+                        'json1 (SQLite C extension) itself is not executed; only pony\'s Python fallbacks are']
+    ch.run_harnesses(rep, specs, classify)
     for ob in rep.obs:
         if ob.verdict == CEX and len(rep.samples) < 8:
             rep.sample({'program': ob.name, 'counterexample': ob.cex, 'key': ob.key})
